@@ -5,6 +5,7 @@ CONSTANTS
   AgeWin = 10
   MAXV = 1000000000
   PragueFrom = 0
+  Base = 0
 INVARIANT TraceInv
 POSTCONDITION TraceAccepted
 CHECK_DEADLOCK FALSE
